@@ -198,7 +198,10 @@ func RunCheck(opts CheckOpts) *CheckReport {
 		if opts.Tier == "thorough" {
 			opts.Timeout = 120 * time.Second
 		} else {
-			opts.Timeout = 20 * time.Second
+			// obligations of the unchanged tree are decided in well under 10 s on an idle machine (the slowest are
+			// listed in the evidence); the margin is for a loaded one. A refuted obligation answers at once, so the
+			// limit only bounds what an undecided one costs.
+			opts.Timeout = 60 * time.Second
 		}
 	}
 	fail := func(format string, a ...any) *CheckReport {
@@ -416,6 +419,12 @@ func RunCheck(opts CheckOpts) *CheckReport {
 	byBackend := map[string]int{}
 	byMode := map[string]int{}
 	var solverTime, maxTime float64
+	type slowObl struct {
+		Obligation string  `json:"obligation"`
+		Seconds    float64 `json:"seconds"`
+		Solver     string  `json:"solver"`
+	}
+	var slowest []slowObl
 	var dead []string
 	type viol struct {
 		name, kind, detail string
@@ -428,6 +437,9 @@ func RunCheck(opts CheckOpts) *CheckReport {
 		solverTime += r.Ans.TimeS
 		if r.Ans.TimeS > maxTime {
 			maxTime = r.Ans.TimeS
+		}
+		if r.Ans.TimeS >= 2 && !r.O.Probe {
+			slowest = append(slowest, slowObl{r.O.Name, round3(r.Ans.TimeS), r.Ans.Solver})
 		}
 		if r.O.Probe {
 			nProbe++
@@ -675,6 +687,7 @@ func RunCheck(opts CheckOpts) *CheckReport {
 		"by_encoding":     byMode,
 		"solver_time_s":   round3(solverTime),
 		"solver_time_max_s": round3(maxTime),
+		"slowest_obligations": slowest,
 		"vacuity_probes":  map[string]int{"run": nProbe, "sat_as_expected": nProbeOK},
 		"dead_fail_clauses": dead,
 		"bounded":         map[string]any{"note": "bounded stand-ins: checked on every run, NOT counted in obligations/discharged", "obligations_checked": nBounded, "passed": nBoundedOK, "functions": boundedFuncs},
